@@ -404,13 +404,18 @@ func TestVerifC20ZombieGossip(t *testing.T) {
 
 		// -----------------------------------------------------------
 		// set-up: announce, policies, prune
-		if !announce("set-up announcement") {
+		// One case in ten: the scid was never in the graph, it was put
+		// into the zombie index with two blank keys (what the gossiper
+		// does through Builder.MarkZombieEdge when the funding output of
+		// an announcement does not validate): nobody may resurrect it.
+		failedValidation := rapid.IntRange(0, 9).Draw(rt, "failedVal") == 0
+		if !failedValidation && !announce("set-up announcement") {
 			st.Count("inconclusive", 1)
 			return
 		}
 		var oldTS [2]uint32
 		switch k := rapid.IntRange(0, 11).Draw(rt, "class"); {
-		case k == 0:
+		case k == 0 || failedValidation:
 		case k <= 2:
 			oldTS[0] = u.baseTS + 5
 		case k <= 4:
@@ -476,7 +481,20 @@ func TestVerifC20ZombieGossip(t *testing.T) {
 				class, ts[0], ts[1])})
 			checkState(when)
 		}
-		prune("after the zombie prune")
+		if failedValidation {
+			if err := rg.MarkZombieEdge(scid); err != nil {
+				rt.Fatalf("harness: MarkZombieEdge: %v", err)
+			}
+			phase = c20zgZombie
+			zk = [2][33]byte{}
+			labels["marked_zombie_blank_keys_no_prune"] = true
+			fpParts = append(fpParts, "MZ")
+			log = append(log, &c20zgSent{note: "-- Builder." +
+				"MarkZombieEdge (blank, blank) of the unknown scid"})
+			checkState("after MarkZombieEdge")
+		} else {
+			prune("after the zombie prune")
+		}
 
 		// -----------------------------------------------------------
 		// history
@@ -625,10 +643,14 @@ func TestVerifC20ZombieGossip(t *testing.T) {
 								s.err)
 						}
 						nontrivial = true
-						if signer != d {
+						switch {
+						case signer != d:
 							labels["zombie_cu_rejected_wrong_"+
 								"signer"] = true
-						} else {
+						case zk[1-d] == c20zgBlank:
+							labels["zombie_cu_rejected_nobody_"+
+								"may_resurrect"] = true
+						default:
 							labels["zombie_cu_rejected_by_"+
 								"strict_rule"] = true
 						}
@@ -689,7 +711,7 @@ func TestVerifC20ZombieGossip(t *testing.T) {
 
 		ll := make([]string, 0, len(labels))
 		for k := range labels {
-			ll = append(ll, k)
+			ll = append(ll, "zg:"+k)
 		}
 		sort.Strings(ll)
 		var sample any
